@@ -32,4 +32,10 @@ theorem tie_scanFoldFuture : scanFoldFuture = .gt := rfl
 /-- `evaluate_impl`: a graph evaluation that failed is never taken for a paused one (F1 repaired) -/
 theorem tie_resumeChecksFailed : resumeChecksFailed = true := rfl
 
+/-- `evaluate_impl`: both failure handlers of the node scan call `keep_unvisited_wakeups`, which folds
+    `pending > evaluation_time && pending < next_scheduled_time` over the nodes after the cursor (F5 repaired) -/
+theorem tie_failKeepsWakeups : failKeepsWakeups = true := rfl
+theorem tie_keepFuture : keepFuture = .gt := rfl
+theorem tie_keepEarlier : keepEarlier = .lt := rfl
+
 end HgVerif.Tie
